@@ -181,6 +181,29 @@ theorem get_state_ids (m : Machine) (s : St) :
   simp [snap, J.get?, List.find?]
 theorem get_history (m : Machine) (s : St) : (snap m s).get? "history" = some (snapHist m s.hist) := by
   simp [snap, J.get?, List.find?]
+theorem get_actors (m : Machine) (s : St) : (snap m s).get? "actors" = some (.obj []) := by
+  simp [snap, J.get?, List.find?]
+theorem get_system (m : Machine) (s : St) : (snap m s).get? "system" = some (.obj []) := by
+  simp [snap, J.get?, List.find?]
+
+theorem isIds_jIds (m : Machine) (ps : List Path) : isIds (jIds m ps) = true := by
+  simp [isIds, jIds, strList_map]
+
+/-- the snapshot of any state passes `_validate_snapshot_shape` -/
+theorem shapeErr_snap (m : Machine) (s : St) : shapeErr (snap m s) = none := by
+  have hh : isMapOf isIds (snapHist m s.hist) = true := by
+    simp only [isMapOf, snapHist, List.all_map, List.all_eq_true]
+    intro kv _
+    exact isIds_jIds m _
+  unfold shapeErr shapeRowOk stateIdsRequired
+  rw [get_status, get_context, get_configuration, get_state_ids, get_history, get_actors, get_system]
+  simp only [snapCtx, snapHist, jIds] at hh ⊢
+  have h1 := isIds_jIds m (sortIds m s.cfg)
+  have h2 := isIds_jIds m (sortIds m (s.cfg.filter (isLeafState m)))
+  simp only [jIds] at h1 h2
+  have ha : isMapOf isActorRec (.obj []) = true := rfl
+  have hs : isMapOf isStr (.obj []) = true := rfl
+  simp [isStr, isObj, h1, h2, hh, ha, hs]
 
 theorem sortIds_nil_iff (m : Machine) (ps : List Path) : sortIds m ps = [] ↔ ps = [] := by
   constructor
@@ -230,17 +253,23 @@ theorem restoreHistJ_snap (m : Machine) (hd : MDot m) (ord : List Path → List 
   simp only [snapHist]
   exact restoreHist_snap m hd ord s.hist hs.histValid
 
+theorem restoreWith_obj (m : Machine) (ord : List Path → List Path) (kvs : List (String × J)) :
+    restoreWith m ord (.obj kvs) =
+      (match shapeErr (.obj kvs) with
+       | some e => .error e
+       | none => restoreCore m ord (.obj kvs)) := rfl
+
 /-- **restore ∘ snap**, exactly, for any ordering of the remembered lists -/
 theorem restoreWith_snap_core (m : Machine) (hd : MDot m) (ord : List Path → List Path) (s : St) (hs : SnapOK m s) :
     restoreWith m ord (snap m s) = .ok (restoredWith m ord s) := by
-  have hobj : ∃ kvs, snap m s = .obj kvs := ⟨_, rfl⟩
-  obtain ⟨kvs, hk⟩ := hobj
-  unfold restoreWith
-  rw [get_context, get_status, restoreIdsJ_snap, restoreHistJ_snap m hd ord s hs]
-  rw [hk]
-  simp only [snapCtx]
-  rw [restoreIds_idOf m hd _ (fun p hp => hs.cfgValid p ((mem_sortIds m p s.cfg).1 hp))]
-  simp only [restoreCtx_snap, restoredWith]
+  have hcore : restoreCore m ord (snap m s) = .ok (restoredWith m ord s) := by
+    unfold restoreCore
+    rw [get_context, get_status, restoreIdsJ_snap, restoreHistJ_snap m hd ord s hs]
+    simp only [snapCtx]
+    rw [restoreIds_idOf m hd _ (fun p hp => hs.cfgValid p ((mem_sortIds m p s.cfg).1 hp))]
+    simp only [restoreCtx_snap, restoredWith]
+  obtain ⟨kvs, hk⟩ : ∃ kvs, snap m s = .obj kvs := ⟨_, rfl⟩
+  rw [hk, restoreWith_obj, ← hk, shapeErr_snap, hcore]
 
 theorem restore_snap_core (m : Machine) (hd : MDot m) (s : St) (hs : SnapOK m s) :
     restore m (snap m s) = .ok (restored m s) := restoreWith_snap_core m hd (sortDI m) s hs
@@ -319,23 +348,215 @@ theorem restoreWith_ok_inv (m : Machine) (ord : List Path → List Path) (j : J)
   split at h
   · rename_i kvs
     split at h
-    · rename_i c hc
+    · cases h
+    · unfold restoreCore at h
       split at h
-      · rename_i st hst
+      · rename_i c hc
         split at h
-        · cases h
-        · rename_i ids hids
+        · rename_i st hst
           split at h
           · cases h
-          · rename_i ps hps
+          · rename_i ids hids
             split at h
             · cases h
-            · rename_i hh hhist
-              cases h
-              exact ⟨⟨kvs, rfl⟩, ⟨c, hc, rfl⟩, hst, ⟨ids, ps, hids, hps, rfl⟩, hhist, rfl, rfl, rfl⟩
+            · rename_i ps hps
+              split at h
+              · cases h
+              · rename_i hh hhist
+                cases h
+                exact ⟨⟨kvs, rfl⟩, ⟨c, hc, rfl⟩, hst, ⟨ids, ps, hids, hps, rfl⟩, hhist, rfl, rfl, rfl⟩
+        · cases h
       · cases h
-    · cases h
   · cases h
+
+/-- an accepted snapshot passed `_validate_snapshot_shape` -/
+theorem restoreWith_ok_shape (m : Machine) (ord : List Path → List Path) (j : J) (s : St)
+    (h : restoreWith m ord j = .ok s) : shapeErr j = none := by
+  unfold restoreWith at h
+  split at h
+  · split at h
+    · cases h
+    · assumption
+  · cases h
+
+/-- the validation comes first: a wrongly shaped object is refused with the first offending key, whatever
+    else is wrong with it (unknown state ids included) -/
+theorem restoreWith_shape_first (m : Machine) (ord : List Path → List Path) (kvs : List (String × J)) (e : RErr)
+    (h : shapeErr (.obj kvs) = some e) : restoreWith m ord (.obj kvs) = .error e := by
+  rw [restoreWith_obj, h]
+
+/-- every row of the table holds of a snapshot that passed the validation -/
+theorem shapeErr_none (j : J) (h : shapeErr j = none) :
+    shapeRowOk j "status" true isStr = true ∧ shapeRowOk j "context" true isObj = true ∧
+    shapeRowOk j "configuration" false isIds = true ∧
+    shapeRowOk j "state_ids" (stateIdsRequired j) isIds = true ∧
+    shapeRowOk j "history" false (isMapOf isIds) = true ∧
+    shapeRowOk j "actors" false (isMapOf isActorRec) = true ∧
+    shapeRowOk j "system" false (isMapOf isStr) = true := by
+  unfold shapeErr at h
+  split at h
+  · cases h
+  rename_i h1
+  split at h
+  · cases h
+  rename_i h2
+  split at h
+  · cases h
+  rename_i h3
+  split at h
+  · cases h
+  rename_i h4
+  split at h
+  · cases h
+  rename_i h5
+  split at h
+  · cases h
+  rename_i h6
+  split at h
+  · cases h
+  rename_i h7
+  exact ⟨by simpa using h1, by simpa using h2, by simpa using h3, by simpa using h4, by simpa using h5,
+    by simpa using h6, by simpa using h7⟩
+
+/-- a row that fails makes the validation fail (with that key or an earlier one) -/
+theorem shapeErr_of_row {j : J} {key : String} {req : Bool} {check : J → Bool}
+    (hrow : shapeRowOk j key req check = false)
+    (hmem : (key, req, check) = ("status", true, isStr) ∨ (key, req, check) = ("context", true, isObj) ∨
+      (key, req, check) = ("configuration", false, isIds) ∨
+      (key, req, check) = ("state_ids", stateIdsRequired j, isIds) ∨
+      (key, req, check) = ("history", false, isMapOf isIds) ∨
+      (key, req, check) = ("actors", false, isMapOf isActorRec) ∨
+      (key, req, check) = ("system", false, isMapOf isStr)) :
+    shapeErr j ≠ none := by
+  intro hn
+  obtain ⟨h1, h2, h3, h4, h5, h6, h7⟩ := shapeErr_none j hn
+  rcases hmem with h | h | h | h | h | h | h <;> cases h <;> simp_all
+
+/-- a required row: the key is present with a value that passes the check -/
+theorem shapeRowOk_required {j : J} {key : String} {check : J → Bool} (h : shapeRowOk j key true check = true) :
+    ∃ v, j.get? key = some v ∧ v ≠ .null ∧ check v = true := by
+  unfold shapeRowOk at h
+  split at h
+  · cases h
+  · cases h
+  · rename_i v hn hv
+    exact ⟨v, hv, fun hc => hn hc, h⟩
+
+theorem isIds_inv {v : J} (h : isIds v = true) : ∃ xs ids, v = .arr xs ∧ strList xs = some ids := by
+  cases v with
+  | arr xs =>
+    simp only [isIds] at h
+    obtain ⟨ids, hi⟩ := Option.isSome_iff_exists.1 h
+    exact ⟨xs, ids, rfl, hi⟩
+  | _ => simp [isIds] at h
+
+/-- on a validated snapshot the list of ids to restore is readable -/
+theorem restoreIdsJ_of_shape (j : J) (h : shapeErr j = none) : ∃ ids, restoreIdsJ j = .ok ids := by
+  obtain ⟨_, _, h3, h4, _⟩ := shapeErr_none j h
+  have hst : stateIdsRequired j = true → ∃ ids,
+      (match j.get? "state_ids" with
+       | some (.arr ys) =>
+         (match strList ys with
+          | some ids => .ok ids
+          | none => .error (.shape "state_ids"))
+       | _ => .error (.shape "state_ids") : Except RErr (List String)) = .ok ids := by
+    intro hr
+    rw [hr] at h4
+    obtain ⟨v, hv, _, hc⟩ := shapeRowOk_required h4
+    obtain ⟨xs, ids, rfl, hi⟩ := isIds_inv hc
+    exact ⟨ids, by rw [hv]; simp only [hi]⟩
+  unfold restoreIdsJ
+  unfold shapeRowOk at h3
+  unfold stateIdsRequired at hst
+  cases hc : j.get? "configuration" with
+  | none => rw [hc] at hst; exact hst rfl
+  | some v =>
+    rw [hc] at hst h3
+    cases v with
+    | null => exact hst rfl
+    | arr xs =>
+      cases xs with
+      | nil => exact hst rfl
+      | cons x xs =>
+        obtain ⟨_, ids, hx, hi⟩ := isIds_inv h3
+        cases hx
+        exact ⟨ids, by simp only [hi]⟩
+    | _ => simp [isIds] at h3
+
+theorem restoreHist_of_shape (m : Machine) (ord : List Path → List Path) : ∀ kvs : List (String × J),
+    kvs.all (fun kv => isIds kv.2) = true → ∃ h, restoreHist m ord kvs = .ok h
+  | [], _ => ⟨[], rfl⟩
+  | kv :: kvs, hall => by
+    simp only [List.all_cons, Bool.and_eq_true] at hall
+    obtain ⟨h', ih⟩ := restoreHist_of_shape m ord kvs hall.2
+    obtain ⟨xs, ids, hx, hi⟩ := isIds_inv hall.1
+    have hent : ∃ o, restoreHistEntry m ord kv = .ok o := by
+      unfold restoreHistEntry
+      rw [hx]
+      simp only [hi]
+      split
+      · exact ⟨_, rfl⟩
+      · split <;> exact ⟨_, rfl⟩
+    obtain ⟨o, ho⟩ := hent
+    simp only [restoreHist, ho, ih]
+    cases o <;> exact ⟨_, rfl⟩
+
+/-- on a validated snapshot the history is readable (unknown ids are dropped, not reported) -/
+theorem restoreHistJ_of_shape (m : Machine) (ord : List Path → List Path) (j : J) (h : shapeErr j = none) :
+    ∃ hh, restoreHistJ m ord j = .ok hh := by
+  obtain ⟨_, _, _, _, h5, _⟩ := shapeErr_none j h
+  unfold restoreHistJ
+  unfold shapeRowOk at h5
+  cases hc : j.get? "history" with
+  | none => exact ⟨[], rfl⟩
+  | some v =>
+    rw [hc] at h5
+    cases v with
+    | null => exact ⟨[], rfl⟩
+    | obj kvs => exact restoreHist_of_shape m ord kvs (by simpa [isMapOf] using h5)
+    | _ => simp [isMapOf] at h5
+
+theorem restoreIds_error (m : Machine) : ∀ (ids : List String) (e : RErr), restoreIds m ids = .error e →
+    ∃ id ∈ ids, stateById m id = none ∧ e = .stateNotFound id
+  | [], e, h => by cases h
+  | i :: ids, e, h => by
+    simp only [restoreIds] at h
+    split at h
+    · rename_i hn
+      cases h
+      exact ⟨i, by simp, hn, rfl⟩
+    · split at h
+      · cases h
+      · rename_i e' he
+        cases h
+        obtain ⟨id, hid, hn, rfl⟩ := restoreIds_error m ids _ he
+        exact ⟨id, List.mem_cons_of_mem _ hid, hn, rfl⟩
+
+/-- **after the validation only an unknown state id can fail**: a snapshot object that passed
+    `_validate_snapshot_shape` is accepted, or one of the ids it lists names no state and the first such id
+    is reported (`StateNotFoundError`); none of the `shape` branches of `restoreCore` is taken -/
+theorem restoreWith_wellshaped (m : Machine) (ord : List Path → List Path) (kvs : List (String × J))
+    (h : shapeErr (.obj kvs) = none) :
+    (∃ s, restoreWith m ord (.obj kvs) = .ok s) ∨
+    ∃ ids id, restoreIdsJ (.obj kvs) = .ok ids ∧ id ∈ ids ∧ stateById m id = none ∧
+      restoreWith m ord (.obj kvs) = .error (.stateNotFound id) := by
+  obtain ⟨h1, h2, _⟩ := shapeErr_none _ h
+  obtain ⟨v1, hv1, _, hc1⟩ := shapeRowOk_required h1
+  obtain ⟨v2, hv2, _, hc2⟩ := shapeRowOk_required h2
+  obtain ⟨ids, hids⟩ := restoreIdsJ_of_shape _ h
+  obtain ⟨hh, hhist⟩ := restoreHistJ_of_shape m ord _ h
+  rw [restoreWith_obj, h]
+  simp only
+  unfold restoreCore
+  rw [hv1, hv2, hids, hhist]
+  cases v1 <;> simp [isStr] at hc1
+  cases v2 <;> simp [isObj] at hc2
+  dsimp only
+  cases hps : restoreIds m ids with
+  | ok ps => exact Or.inl ⟨_, rfl⟩
+  | error e =>
+    obtain ⟨id, hid, hn, rfl⟩ := restoreIds_error m ids e hps
+    exact Or.inr ⟨ids, id, rfl, hid, hn, rfl⟩
 
 theorem restore_ok_inv (m : Machine) (j : J) (s : St) (h : restore m j = .ok s) :
     (∃ kvs, j = .obj kvs) ∧ (∃ c, j.get? "context" = some (.obj c) ∧ s.ctx = restoreCtx c) ∧
